@@ -302,7 +302,7 @@ def normalize_run(res):
             "exc": exc, "hung": 1 if res["hung"] else 0, "exit_flushes": dropped_flushes}
 
 
-def validate_event_runs(ck, runs, label, expect_reject=None):
+def validate_event_runs(ck, runs, label):
     """TraceMultiCore.SpecEvents over a batch of run records; returns (accepted set, stuck info by tid)"""
     tf = os.path.join(ck.wd, "trace-events-%s.json" % label)
     with open(tf, "w") as fh:
@@ -549,14 +549,12 @@ def cli_collect(wd, quick, seed):
     gids = {}  # ds -> {name: global id}
     for ds, loci in BEDS.items():
         gids[ds] = {l[3]: i + 1 for i, l in enumerate(loci)}
-    runs = []  # dicts: prog, ds, grp, cores, expect (global ids in input order), fail (position), argv, what
 
     def grp(prog, ds):
         return groups.setdefault((prog, ds), len(groups) + 1)
 
     # ---- stage 1: reference assemble runs (also warm the numba cache) ------------------------
     ref_runs = {}
-    first = True
     for ds, loci in BEDS.items():
         r = {"prog": "assemble", "ds": ds, "grp": grp("assemble", ds), "cores": 1, "expect": [gids[ds][l[3]] for l in loci], "fail": 0,
              "args": prog_args("assemble", inp, (inp.bed(loci), inp.vcf, inp.ref)) + ["--cores", "1"], "what": "reference"}
@@ -746,30 +744,32 @@ def cli_validate(ck, data, lap):
 def reseed_collect(quick, seed):
     rnd = random.Random(seed + 29)
     t_start = time.time()
-    cfg = "Reseed_quick" if quick else "Reseed_thorough"
+    cfgs = ["Reseed_quick"] if quick else ["Reseed_thorough", "Reseed_deep"]
     muts = ["numpyonly", "drawfirst", "seedonce", "cachedep"]
     try:
-        with ThreadPoolExecutor(max_workers=5) as ex:
-            rr = list(ex.map(lambda c: tlc.run(SPEC, "Reseed", c + ".cfg", workers=2), [cfg] + ["Reseed_Mutant_" + m for m in muts]))
+        with ThreadPoolExecutor(max_workers=6) as ex:
+            rr = list(ex.map(lambda c: tlc.run(SPEC, "Reseed", c + ".cfg", workers=2), cfgs + ["Reseed_Mutant_" + m for m in muts]))
     except tlc.TLCError as e:
         raise Machinery(str(e))
-    hists = sorted(p["hist"] for p in rr[0].printed)
-    rr[0].printed = None
+    hists = sorted({json.dumps(p["hist"]) for r in rr[: len(cfgs)] for p in r.printed})
+    hists = [json.loads(h) for h in hists]
+    for r in rr[: len(cfgs)]:
+        r.printed = None
     rnd.shuffle(hists)
     nproc = max(1, min(env.NCPU // 2, 4 if quick else 8))
     tasks = [{"op": "reseed", "histories": hists[i::nproc], "steps": 30} for i in range(nproc)]
     res = pool.map_tasks("impl.c08", tasks, mode="jit", nproc=nproc, warm_first=False)
-    return {"cfg": cfg, "muts": muts, "rr": rr, "hists": hists, "res": res, "wall": round(time.time() - t_start, 1)}
+    return {"cfgs": cfgs, "muts": muts, "rr": rr, "hists": hists, "res": res, "wall": round(time.time() - t_start, 1)}
 
 
 def reseed_validate(ck, data, lap):
-    cfg, muts, rr, hists, res = data["cfg"], data["muts"], data["rr"], data["hists"], data["res"]
+    cfgs, muts, rr, hists, res = data["cfgs"], data["muts"], data["rr"], data["hists"], data["res"]
     ck.note("reseed_wall_s", data["wall"])
-    r = rr[0]
-    ck.add_tlc(r, "Reseed/" + cfg)
-    if r.violated:
-        ck.violation("model", {"cfg": cfg, "invariant": r.violated, "text": r.error_text[:1500]}, key={"model": "Reseed"})
-    for m, x in zip(muts, rr[1:]):
+    for cfg, r in zip(cfgs, rr):
+        ck.add_tlc(r, "Reseed/" + cfg)
+        if r.violated:
+            ck.violation("model", {"cfg": cfg, "invariant": r.violated, "text": r.error_text[:1500]}, key={"model": "Reseed"})
+    for m, x in zip(muts, rr[len(cfgs):]):
         if x.violated != "OutputFunctionOfSeed":
             ck.machinery_failure("mutant spec Reseed_Mutant_%s not killed" % m)
     ck.bump("mutant_specs_killed", len(muts))
